@@ -19,6 +19,7 @@ type base struct {
 	src        string // tink | spec
 	k          keyCfg // key (layout) that made it; envelope: the DEK layout
 	allBits    bool
+	pairs      bool // long AES-GCM-SIV ciphertext: paired block modifications
 }
 
 type mut struct {
@@ -256,6 +257,38 @@ func mutations(x *runner, t *target, b base, others []base) []mut {
 			add(fmt.Sprintf("env:dek-of-%d", oi), cat(o.ct[:po+4+ol], b.ct[po+4+l:]), b.ad)
 		}
 	}
+	// ---- paired modifications: the same difference XORed into two blocks of one 64-byte group of the body and of
+	// the associated data (an implementation folding several blocks per step with a wrong key power accepts these)
+	if b.pairs {
+		pairMut := func(what string, src []byte, off, ln int, build func([]byte) ([]byte, []byte)) {
+			groups := map[int]bool{0: true, ln / 64 / 2: true, ln/64 - 1: true}
+			for g := range groups {
+				if g < 0 || (g+1)*64 > ln {
+					continue
+				}
+				for i := 0; i < 4; i++ {
+					for j := i + 1; j < 4; j++ {
+						d := vt.Bytes(x.r, 16)
+						if (i+j+g)%3 == 0 {
+							d = make([]byte, 16)
+							d[x.r.Intn(16)] = 1 << uint(x.r.Intn(8))
+						}
+						m := clone(src)
+						for k := 0; k < 16; k++ {
+							m[off+g*64+i*16+k] ^= d[k]
+							m[off+g*64+j*16+k] ^= d[k]
+						}
+						c, a := build(m)
+						add(fmt.Sprintf("pair:%s:g%d:%d-%d", what, g, i, j), c, a)
+					}
+				}
+			}
+		}
+		if bd, ok := region1(rs, "body"); ok {
+			pairMut("body", b.ct, bd.off, bd.len, func(m []byte) ([]byte, []byte) { return m, b.ad })
+		}
+		pairMut("ad", b.ad, 0, len(b.ad), func(m []byte) ([]byte, []byte) { return b.ct, m })
+	}
 	// ---- envelope framing: the encrypted-DEK length field
 	if t.Mode == "envelope" {
 		po := len(t.envPrefix())
@@ -333,7 +366,13 @@ func runC02(x *runner, t *target, ti int, mine []sealReq, sealed map[int][]byte)
 		pt := content(x.r, n, bi+ti)
 		ad, _ := adOf(x.r, bi+ti+2)
 		if ct := x.encrypt(t, pt, ad); ct != nil {
-			bases = append(bases, base{ct, ad, pt, "tink", lay, !big && ((isCore && bi == 0) || (!x.full && bi == 0 && ti%2 == 0))})
+			bases = append(bases, base{ct, ad, pt, "tink", lay, !big && ((isCore && bi == 0) || (!x.full && bi == 0 && ti%2 == 0)), false})
+		}
+	}
+	if pairTarget(gTargets, ti, x.full) { // long Tink-made base for the paired modifications
+		pt, ad := content(x.r, 1040, ti), content(x.r, 1088, ti+1)
+		if ct := x.encrypt(t, pt, ad); ct != nil {
+			bases = append(bases, base{ct, ad, pt, "tink", lay, false, true})
 		}
 	}
 	for _, q := range mine {
@@ -345,7 +384,7 @@ func runC02(x *runner, t *target, ti int, mine []sealReq, sealed map[int][]byte)
 		if t.Mode == "keyset" {
 			l = t.Keys[q.Key]
 		}
-		bases = append(bases, base{ct, q.Ad, q.Pt, "spec", l, !big && q.Muts && q.Key == 0 && (isCore || (!x.full && ti%2 == 1))})
+		bases = append(bases, base{ct, q.Ad, q.Pt, "spec", l, !big && q.Muts && q.Key == 0 && (isCore || (!x.full && ti%2 == 1)), q.Pairs})
 	}
 	var prods []pair
 	for _, b := range bases {
